@@ -118,8 +118,8 @@ def mesh_stage(ctx, arity):
     spath = os.path.join(ctx.dir, "mesh-stats%d.json" % arity)
     ctx.drv(["c15-mesh", "in=" + cpath, "out=" + rpath, "stats=" + spath, "arity=%d" % arity])
     stats = json.load(open(spath))
-    rej = codec.judge(ctx, "mesh%d" % arity, rpath, stats["records"], {"err", "faces", "colors"},
-                      lambda rec, clause: "%s:%s:%s" % (rec["site"], rec["real"], clause))
+    rej = codec.judge(ctx, "mesh%d" % arity, rpath, stats["records"], {"err", "faces", "colors", "count"},
+                      lambda rec, clause: "%s:%s:%s" % (rec["site"], rec.get("real", "large"), clause))
     ctx.counts["distinct_nontrivial"] += stats.get("nonempty", 0)
     ctx.stage("mesh%d" % arity, kind="R+V", meshes=len(cases), records=stats["records"], rejected=rej,
               sites={k[5:]: v for k, v in stats.items() if k.startswith("site:")})
